@@ -313,7 +313,9 @@ func (exp *exporter) EndMarkupBlock(tag string, id string, punct string) {
 	if okMtag {
 		fmt.Fprint(w, mtag.End)
 	}
-	exp.fontstack = exp.fontstack[:len(exp.fontstack)-1]
+	if len(exp.fontstack) > 0 {
+		exp.fontstack = exp.fontstack[:len(exp.fontstack)-1]
+	}
 	cmd := "R"
 	if len(exp.fontstack) > 0 {
 		cmd = exp.fontstack[len(exp.fontstack)-1]
